@@ -90,9 +90,13 @@ pub fn lookup_event(p: LonLat, res: i32, kind: &str) -> Value {
     let (ok, id) = match r { Ok(Ok(id)) => (true, id), _ => (false, 0) };
     let mut class = "none";
     let (mut pm, mut rm, mut allow) = (0.0, 0.0, 0.0);
-    if ok {
+    if ok && res_of(id) != res {
+        class = "wrongres"; // not even a cell of the requested resolution: nothing to measure
+    } else if ok {
         if let (Ok(cell), Some(o)) = (deserialize(id), ring_oracle(id)) {
-            let c = classify(id, &cell, p, &o);
+            // the oracles see the longitude reduced modulo 360 (f64 remainder is exact): the same physical point
+            let pr = if p.longitude().abs() > 360.0 { LonLat::new(p.longitude() % 360.0, p.latitude()) } else { p };
+            let c = classify(id, &cell, pr, &o);
             class = c.0; pm = c.1; rm = c.2; allow = o.allowance;
         } else { class = "out"; }
     }
@@ -131,7 +135,8 @@ pub fn interior_events(t: &mut Trace, op: &str, id: u64, rng: &mut Rng, depths: 
             let back = catch(|| a5::lonlat_to_cell(p, res)).ok().and_then(|x| x.ok());
             let info = a5::verif::lookup_info();
             // the cell that answered must itself contain the point (C01), whichever side we are on
-            let (bclass, bpm, brm) = match back { Some(b) if b != id => match (deserialize(b), ring_oracle(b)) { (Ok(bc), Some(bo)) => classify(b, &bc, p, &bo), _ => ("out", 0.0, 0.0) },
+            let (bclass, bpm, brm) = match back { Some(b) if res_of(b) != res => ("wrongres", 0.0, 0.0),
+                                                  Some(b) if b != id => match (deserialize(b), ring_oracle(b)) { (Ok(bc), Some(bo)) => classify(b, &bc, p, &bo), _ => ("out", 0.0, 0.0) },
                                                   Some(_) => (class, pm, rm), None => ("none", 0.0, 0.0) };
             t.emit(json!({"op": op, "id": quads(id), "res": res, "p": fmt_ll(p), "corner": k % 8 == 0, "depth": format!("{:e}", sign * d),
                           "class": class, "planar_e15": q15(pm), "ring_e15": q15(rm), "ok": back.is_some(), "back": quads(back.unwrap_or(0)),
@@ -271,6 +276,53 @@ pub fn continuity_flags(tier: &str) -> Vec<LonLat> {
             out
         }));
     }
+    // circles around every face centre (a tear ALONG a ray is crossed by a circle, not by a ray)
+    let radii: Vec<f64> = if tier == "thorough" { vec![0.02, 0.08, 0.2, 0.35, 0.5, 0.62, 0.7] } else { vec![0.05, 0.3, 0.6] };
+    for origin in 0..12u8 {
+        let radii = radii.clone();
+        handles.push(std::thread::spawn(move || {
+            let mut proj = DodecahedronProjection::new().unwrap();
+            let mut out: Vec<LonLat> = vec![];
+            for rho in radii {
+                let f = |proj: &mut DodecahedronProjection, a: f64| -> [f64; 3] {
+                    let s = proj.inverse(Face::new(rho * a.cos(), rho * a.sin()), origin).unwrap();
+                    let (t, p) = (s.theta().get(), s.phi().get());
+                    [p.sin() * t.cos(), p.sin() * t.sin(), p.cos()]
+                };
+                let d2 = |a: [f64; 3], b: [f64; 3], c: [f64; 3]| ((a[0] - 2.0 * b[0] + c[0]).powi(2) + (a[1] - 2.0 * b[1] + c[1]).powi(2) + (a[2] - 2.0 * b[2] + c[2]).powi(2)).sqrt();
+                let da = 2e-6 / rho; // arc step 2e-6 face units
+                let mut ang = -std::f64::consts::PI + 1e-4 * origin as f64;
+                let end = ang + std::f64::consts::TAU;
+                let (mut pa, mut pb) = (f(&mut proj, ang - da), f(&mut proj, ang));
+                let mut last_flag = f64::NEG_INFINITY;
+                let h = 2e-6;
+                while ang < end {
+                    let pc = f(&mut proj, ang + da);
+                    let dd = d2(pa, pb, pc);
+                    // the smooth part along a circle has curvature ~ 1/rho on top of the map's own
+                    if dd > (2.5 + 1.5 / rho) * h * h + 8e-15 && ang > last_flag + 40.0 * da {
+                        let (mut ac, mut hc) = (ang, da);
+                        for _ in 0..40 {
+                            hc *= 0.5;
+                            if hc * rho < 1e-13 { break; }
+                            let mut best = (0.0, ac);
+                            for cand in [ac - hc, ac, ac + hc] {
+                                let v = d2(f(&mut proj, cand - hc), f(&mut proj, cand), f(&mut proj, cand + hc));
+                                if v > best.0 { best = (v, cand); }
+                            }
+                            ac = best.1;
+                        }
+                        let sp = proj.inverse(Face::new(rho * ac.cos(), rho * ac.sin()), origin).unwrap();
+                        out.push(a5::core::coordinate_transforms::to_lon_lat(sp));
+                        last_flag = ang;
+                    }
+                    pa = pb; pb = pc;
+                    ang += da;
+                }
+            }
+            out
+        }));
+    }
     let mut all = vec![];
     for h in handles { all.extend(h.join().unwrap()); }
     all
@@ -326,6 +378,12 @@ pub fn gen_c04(tier: &str, seed: u64, out: &str) -> Value {
 /// poles, antimeridian, the 12 face centres, the 20 face vertices and 30 edge midpoints (from the res-0 rings)
 pub fn special_points() -> Vec<LonLat> {
     let mut v = vec![LonLat::new(0.0, 90.0), LonLat::new(0.0, -90.0), LonLat::new(180.0, 0.0), LonLat::new(-180.0, 45.0), LonLat::new(179.999999, -60.0)];
+    // "round" coordinates people actually use and code special-cases: Null Island, the prime meridian, the equator,
+    // multiples of 45 / 90 degrees, and the library's own zero and seam meridians (theta = lon + 93 = 0 / 180)
+    for lon in [0.0, 90.0, -90.0, 45.0, -45.0, 135.0, -135.0, -93.0, 87.0] {
+        for lat in [0.0, 45.0, -45.0, 30.0, -60.0, 85.0, -85.0] { v.push(LonLat::new(lon, lat)); }
+    }
+    for k in 0..12 { v.push(LonLat::new(30.0 * k as f64 - 165.0, 0.0)); v.push(LonLat::new(0.0, 15.0 * k as f64 - 82.5)); }
     for id in all_cells(0) {
         if let Ok(c) = a5::cell_to_lonlat(id) { v.push(c); }
         if let Some(ring) = ring_ll(id, 2, false) { v.extend(ring); }
@@ -502,6 +560,9 @@ pub fn gen_c11(tier: &str, seed: u64, out: &str, mc: Option<&str>) -> Value {
             let r = rng.range(rlo as i64, rhi as i64) as i32;
             let p = match sc["loc"].as_str().unwrap() {
                 "antimeridian" => LonLat::new(if rng.chance(0.5) { 180.0 } else { -180.0 } + (rng.f64() - 0.5) * cell_size(r) / DEG, rng.f64() * 160.0 - 80.0),
+                // the seam of the library's own longitudes: theta = longitude + 93 wraps at 180, i.e. at 87 E (and its alias -273)
+                "theta_seam" => { let lat = if rng.chance(0.6) { (60.0 + 29.9 * rng.f64()) * if rng.chance(0.5) { 1.0 } else { -1.0 } } else { rng.f64() * 120.0 - 60.0 };
+                                  LonLat::new(87.0 + (rng.f64() - 0.5) * 2.0 * cell_size(r) / DEG / (lat * DEG).cos().max(1e-3), lat) }
                 "pole" => LonLat::new(rng.f64() * 360.0 - 180.0, if rng.chance(0.5) { 90.0 } else { -90.0 }),
                 "pole_adjacent" => LonLat::new(rng.f64() * 360.0 - 180.0, (90.0 - (1.0 + 2.0 * rng.f64()) * cell_size(r) / DEG) * if rng.chance(0.5) { 1.0 } else { -1.0 }),
                 "face_vertex" => { let s = *rng.pick(&specials); LonLat::new(s.longitude() + (rng.f64() - 0.5) * cell_size(r) / DEG, (s.latitude() + (rng.f64() - 0.5) * cell_size(r) / DEG).clamp(-90.0, 90.0)) }
@@ -653,6 +714,33 @@ pub fn gen_c01(tier: &str, seed: u64, out: &str, mc: Option<&str>) -> Value {
         let r = (i % 30) as i32;
         let id = if i % 4 == 0 { a5::lonlat_to_cell(*rng.pick(&specials), r).unwrap_or_else(|_| random_cell(&mut rng, r)) } else { random_cell(&mut rng, r) };
         n_hug += interior_events(&mut t, "interior1", id, &mut rng, &[1e-13, 1e-10, 1e-7, 1e-4, 1e-2, 0.3]);
+        t.cut();
+    }
+    // every special point itself (no offset) at every resolution
+    for (i, p) in specials.iter().enumerate() {
+        for r in 0..=29 { if tier == "thorough" || (i + r as usize) % 3 == 0 { t.emit(lookup_event(*p, r, "special_exact")); n += 1; } }
+        t.cut();
+    }
+    // astronomically many turns: +-6e6 and +-1e7 turns exceed 2^31 degrees; the point is the centre of a res-9 cell, so that
+    // the 4e-9 rad the argument reduction itself loses cannot matter, and only coarse resolutions are asked for
+    for i in 0..(if tier == "thorough" { 400 } else { 60 }) {
+        let c9 = match a5::lonlat_to_cell(random_point(&mut rng), 9).and_then(a5::cell_to_lonlat) { Ok(c) => c, Err(_) => continue };
+        for turns in [-10_000_000.0f64, -6_000_000.0, 6_000_000.0, 10_000_000.0] {
+            let r = [0, 1, 2, 5, 9][i % 5];
+            t.emit(lookup_event(LonLat::new(c9.longitude() + 360.0 * turns, c9.latitude()), r, "lon_turns"));
+            n += 1;
+        }
+        t.cut();
+    }
+    // longitude aliases: the same physical point written with +-360, +-720, +-1080 degrees ("any finite longitude")
+    let nalias = if tier == "thorough" { 3000 } else { 400 };
+    for i in 0..nalias {
+        let p = if i % 4 == 0 { *rng.pick(&specials) } else { random_point(&mut rng) };
+        let r = [0, 1, 0, 1, 2, 7, 15, 29][i % 8];
+        for k in [-1080.0, -720.0, -360.0, 360.0, 720.0, 1080.0] {
+            t.emit(lookup_event(LonLat::new(p.longitude() + k, p.latitude()), r, "lon_alias"));
+            n += 1;
+        }
         t.cut();
     }
     // the same point through all resolutions, descending then ascending, on one thread ("every point x all resolutions"
